@@ -41,8 +41,33 @@ type c19Outcome struct {
 	Confirms string // per known block: which deputies' confirmations the store holds for it
 }
 
+// key: what sequential equivalence is judged on. The stored confirmation sets are NOT part of it: the engine's own
+// background confirmer (not one of the requests) adds the node's signature at a moment of its own, and whether a
+// later confirmation is still taken depends on "enough already": exact equality with one serial order would
+// misjudge that actor's timing. They are bounded instead (confirmBounds).
 func (o c19Outcome) key() string {
-	return strings.Join(o.Verdicts, "|") + " stable=" + o.Stable + " head=" + o.Head + " known=" + o.Known + " pool=" + o.Pool + " confirms=" + o.Confirms
+	return strings.Join(o.Verdicts, "|") + " stable=" + o.Stable + " head=" + o.Head + " known=" + o.Known + " pool=" + o.Pool
+}
+
+func (o c19Outcome) full() string { return o.key() + " confirms=" + o.Confirms }
+
+// confirmSets parses Confirms ("[4]a:d0+d2,[5]child:d1") into block -> set of signers.
+func confirmSets(s string) map[string]map[string]bool {
+	out := map[string]map[string]bool{}
+	for _, part := range strings.Split(s, ",") {
+		i := strings.LastIndex(part, ":")
+		if i < 0 {
+			continue
+		}
+		set := map[string]bool{}
+		for _, d := range strings.Split(part[i+1:], "+") {
+			if d != "" {
+				set[d] = true
+			}
+		}
+		out[part[:i]] = set
+	}
+	return out
 }
 
 type c19Pub struct {
@@ -414,6 +439,9 @@ func c19Post(c *Ctx) {
 		return
 	}
 	var serials []string
+	matched := false
+	// per block: signers stored in EVERY serial order / in SOME serial order
+	var inter, union map[string]map[string]bool
 	for _, ord := range permutations(n) {
 		var so c19Outcome
 		sub, res := runSub(c, simrt.Config{Policy: simrt.PolicyCoarse}, func(sc *Ctx) {
@@ -423,11 +451,59 @@ func c19Post(c *Ctx) {
 			c.Probe("serial_reference_failed")
 			return
 		}
-		if so.key() == out.key() {
-			c.Probe("matched_serial_order")
-			return
+		cs := confirmSets(so.Confirms)
+		if inter == nil {
+			inter, union = map[string]map[string]bool{}, map[string]map[string]bool{}
+			for b, set := range cs {
+				inter[b], union[b] = map[string]bool{}, map[string]bool{}
+				for d := range set {
+					inter[b][d], union[b][d] = true, true
+				}
+			}
+		} else {
+			for b := range inter {
+				for d := range inter[b] {
+					if !cs[b][d] {
+						delete(inter[b], d)
+					}
+				}
+			}
+			for b, set := range cs {
+				if union[b] == nil {
+					union[b] = map[string]bool{}
+				}
+				for d := range set {
+					union[b][d] = true
+				}
+			}
 		}
-		serials = append(serials, fmt.Sprintf("order %v: %s", ord, so.key()))
+		if so.key() == out.key() {
+			matched = true
+		}
+		serials = append(serials, fmt.Sprintf("order %v: %s", ord, so.full()))
+	}
+	if matched {
+		c.Probe("matched_serial_order")
+		// stored confirmations: nothing that every serial order keeps may be missing (lost update between the
+		// background confirmer and the network thread), nothing may be stored that no serial order stores
+		got := confirmSets(out.Confirms)
+		for _, b := range sortedKeys2(inter) {
+			for _, d := range sortedKeys3(inter[b]) {
+				if !got[b][d] {
+					c.Fail("C19/confirms/lost", "after the concurrent execution the store holds no confirmation of %s for block %s, although it holds one after every one of the %d serial orders of the same requests (a stored confirmation was overwritten)\n concurrent: %s\n %s", d, b, len(serials), out.full(), strings.Join(serials, "\n "))
+					return
+				}
+			}
+		}
+		for _, b := range sortedKeys2(got) {
+			for _, d := range sortedKeys3(got[b]) {
+				if !union[b][d] {
+					c.Fail("C19/confirms/phantom", "after the concurrent execution the store holds a confirmation of %s for block %s that no serial order of the same requests stores\n concurrent: %s\n %s", d, b, out.full(), strings.Join(serials, "\n "))
+					return
+				}
+			}
+		}
+		return
 	}
 	// classify the difference for the signature
 	sub := "other"
@@ -436,7 +512,7 @@ func c19Post(c *Ctx) {
 			sub = "request-did-not-return"
 		}
 	}
-	c.Fail("C19/not-serializable/"+sub, "the concurrent execution's outcome matches none of the %d serial orders of the same requests.\n concurrent: %s\n %s", len(serials), out.key(), strings.Join(serials, "\n "))
+	c.Fail("C19/not-serializable/"+sub, "the concurrent execution's outcome matches none of the %d serial orders of the same requests.\n concurrent: %s\n %s", len(serials), out.full(), strings.Join(serials, "\n "))
 }
 
 func init() {
@@ -447,4 +523,23 @@ func init() {
 		Stub: []string{"request sources (network, miner timer, RPC threads) = harness tasks"},
 		Assumptions: []string{"the engine's background jobs (confirm broadcast, batch confirm of stable blocks, evil-deputy judging, delayed confirm fetch) do not influence the compared outcome components (verdicts, stable, head, known-block set, pool), so comparing against the k! request orders is complete for this oracle", "confirm lists are not compared (the node's own optional signatures legitimately depend on order)"},
 	})
+}
+
+
+func sortedKeys2(m map[string]map[string]bool) []string {
+	out := make([]string, 0, len(m))
+	for k := range m {
+		out = append(out, k)
+	}
+	sort.Strings(out)
+	return out
+}
+
+func sortedKeys3(m map[string]bool) []string {
+	out := make([]string, 0, len(m))
+	for k := range m {
+		out = append(out, k)
+	}
+	sort.Strings(out)
+	return out
 }
